@@ -684,4 +684,28 @@ def pure_clauses(max_n=40, max_cols=8):
         if keys != wantk or vals != wantv or both != list(zip(wantk, wantv)):
             return cases, {"what": "combination", "shape": list(shape), "keys": keys[:20],
                            "values": vals[:20], "items": both[:20]}
+    # the caller keeps its lists and changes them after construction: whatever view the helper
+    # takes (live or frozen), keys(), values() and items() must describe the same product
+    for shape in [(2, 3), (1, 2, 2), (3,), (2, 2)]:
+        for action in ("grow_inner", "shrink_inner", "add_list"):
+            cases += 1
+            items = [[f"{alphabet[i]}{j}" for j in range(m)] for i, m in enumerate(shape)]
+            dc = DataCombination(items)
+            list(dc.items())
+            if action == "grow_inner":
+                items[-1].append("zz")
+            elif action == "shrink_inner":
+                items[0].pop()
+            else:
+                items.append(["p", "q"])
+            try:
+                keys, vals, both = list(dc.keys()), list(dc.values()), list(dc.items())
+            except Exception as e:
+                return cases, {"what": "combination after the caller changed its lists",
+                               "shape": list(shape), "action": action,
+                               "error": [type(e).__name__, repr(e.args)[:200]]}
+            if both != list(zip(keys, vals)) or len(keys) != len(vals):
+                return cases, {"what": "combination views disagree after the caller changed "
+                                       "its lists", "shape": list(shape), "action": action,
+                               "keys": len(keys), "values": len(vals), "items": len(both)}
     return cases, None
